@@ -250,8 +250,27 @@ Definition get_range (g : cfg) (w : world) (c : cache) (hits : list key) (name :
     end
   end.
 
-(* Get + getReader read to EOF *)
-Definition get (g : cfg) (w : world) (c : cache) (hits : list key) (name : N) : outcome * cache :=
+(* getReader.Read driven to EOF by a consumer that reads [chunk] bytes at a time: the
+   underlying reader returns min(chunk, remaining) bytes per call and (0, EOF) at the end.
+   [buf] is getReader.buf: Some b while the object still fits (b = bytes buffered so far),
+   None once a read made it exceed maxSize (buf = nil). Returns what is stored under the
+   content key when EOF is seen: None = nothing is stored. *)
+Fixpoint get_reader (fuel : nat) (rest : bytes) (chunk maxsize : Z) (buf : option bytes) : option bytes :=
+  match fuel with
+  | O => None
+  | S f =>
+      if blen rest <=? 0 then buf
+      else
+        let n := Z.min chunk (blen rest) in
+        let buf' := match buf with
+                    | Some b => if blen b + n <=? maxsize then Some (b ++ slice rest 0 n) else None
+                    | None => None
+                    end in
+        get_reader f (slice rest n (blen rest)) chunk maxsize buf'
+  end.
+
+(* Get + getReader read to EOF in reads of [chunk] bytes *)
+Definition get (g : cfg) (w : world) (c : cache) (hits : list key) (name : N) (chunk : Z) : outcome * cache :=
   match fetch c hits (KContent name) with
   | Some (VBytes (x :: b)) => ((RBytes (x :: b), [], []), c)
   | _ =>
@@ -262,9 +281,10 @@ Definition get (g : cfg) (w : world) (c : cache) (hits : list key) (name : N) : 
           | None => ((RErr, [], [KExists name]), store c (KExists name) (VBool false))
           | Some o =>
               let c1 := store c (KExists name) (VBool true) in
-              if blen o <=? c_maxsize g
-              then ((RBytes o, [], [KExists name; KContent name]), store c1 (KContent name) (VBytes o))
-              else ((RBytes o, [], [KExists name]), c1)
+              match get_reader (S (length o)) o chunk (c_maxsize g) (Some []) with
+              | Some stored => ((RBytes o, [], [KExists name; KContent name]), store c1 (KContent name) (VBytes stored))
+              | None => ((RBytes o, [], [KExists name]), c1)
+              end
           end
       end
   end.
@@ -293,7 +313,7 @@ Definition iter (c : cache) (hits : list key) (dir : N) (recursive : bool) (trut
 
 Inductive op :=
 | OGetRange (name : N) (off len : Z)
-| OGet (name : N)
+| OGet (name : N) (chunk : Z)
 | OExists (name : N)
 | OAttr (name : N)
 | OIter (dir : N) (recursive : bool).
@@ -301,7 +321,7 @@ Inductive op :=
 Definition step (g : cfg) (w : world) (c : cache) (o : op) (hits : list key) (truth : list N) : outcome * cache :=
   match o with
   | OGetRange n off len => get_range g w c hits n off len
-  | OGet n => get g w c hits n
+  | OGet n chunk => get g w c hits n chunk
   | OExists n => exists_ w c hits n
   | OAttr n => attributes w c hits n
   | OIter d r => iter c hits d r truth
@@ -313,7 +333,7 @@ Definition reference (w : world) (o : op) (truth : list N) : result :=
   | OGetRange n off len =>
       if (off <? 0) || (len <=? 0) then RUnmodelled
       else match find_obj w n with Some obj => RBytes (under_get_range obj off len) | None => RErr end
-  | OGet n => match find_obj w n with Some obj => RBytes obj | None => RErr end
+  | OGet n _ => match find_obj w n with Some obj => RBytes obj | None => RErr end
   | OExists n => RBool (match find_obj w n with Some _ => true | None => false end)
   | OAttr n => match find_obj w n with Some obj => RSize (blen obj) | None => RErr end
   | OIter _ _ => RList truth
